@@ -18,6 +18,21 @@ def specs(ctx):
         ts = [dict(rng.choice(sysrun.KINDS)) for _ in range(k)]
         out.append(dict(transfers=ts, cfg=sysrun.CFG_SMALL, chooser=sysrun.chooser(rng, i),
                         cancel=dict(how='future', at=rng.randrange(0, 90)), victims=['t0'], fresh_after=bool(i % 2)))
+    # the user leaves the with-block (or is interrupted inside the shutdown wait) while
+    # transfers are still in flight and one of them fails: shutdown must still be a barrier
+    for i in range(200 if ctx.thorough() else 60):
+        k = rng.choice([2, 3])
+        ts = [dict(rng.choice([x for x in sysrun.KINDS if x['size'] >= 4])) for _ in range(k)]
+        v = rng.randrange(k)
+        spec = dict(transfers=ts, cfg=dict(sysrun.CFG_SMALL, max_request_concurrency=rng.choice([1, 2, 3])),
+                    chooser=sysrun.chooser(rng, i), victims=[f't{v}'],
+                    s3_fault=dict(key=f'k{v}', nth=rng.randrange(3), when=rng.choice(['before', 'after'])))
+        if i % 3 == 2:
+            spec['cancel'] = dict(how='exit_wait_kbi', at=rng.randrange(5, 80))
+            spec['victims'] = [f't{j}' for j in range(k)]      # an interrupted shutdown cancels the rest
+        else:
+            spec['cancel'] = dict(how='exit_nowait')
+        out.append(spec)
     return out
 
 
